@@ -711,6 +711,10 @@ func (m *Machine) indexAddr(c Value, idx *Term) Value {
 	case SliceVal:
 		if x.arr != nil {
 			if bl, ok := x.arr.v.(*Blob); ok {
+				if bl.kind == "sig" {
+					// the recovery byte of a model signature: already 0/1
+					return PtrVal{obj: m.newObj(mkInt(0), nil, "sigbyte")}
+				}
 				if bl.kind != "atombytes" {
 					panic(abortf("IndexAddr into opaque %s blob", bl.kind))
 				}
